@@ -1,8 +1,10 @@
 package harness
 
 import (
+	"context"
 	"fmt"
 	"runtime"
+	"sync"
 	"testing"
 	"time"
 
@@ -200,6 +202,161 @@ func TestGenC20(t *testing.T) {
 			q.check(got == 1500*time.Millisecond, fmt.Sprintf("c20:retransmission-not-reported-to-the-timeout-manager:sender=%d", sender), func() string {
 				return fmt.Sprintf("side %d (0 = client, 1 = server), n=%d: one lost DATA packet, retransmitted after 1 s, ACK 400 ms later: resend timeout %v, expected the boosted default 1.5s (a retransmitted packet gives no sample)", sender, n, got)
 			})
+		}
+	}
+	// A lost ACK that a later cumulative ACK makes up for leaves the send time of its packet behind. When the sequence
+	// number comes round again - here for a keepalive ping after an idle period - the response must be credited to
+	// the packet that now carries the number, not to the old one.
+	for _, n := range []int{2, 3} {
+		var got time.Duration
+		ok := false
+		pan := bubble(t, func(t *testing.T) {
+			lg.start = time.Now()
+			base := runtime.NumGoroutine()
+			s := newSim(t, lg, simCfg{id: fmt.Sprintf("w%d", n), n: uint8(n), freq: 1, ping: 2 * time.Second, pong: 5 * time.Second})
+			if !s.cleanHandshake() {
+				s.finish(base)
+				return
+			}
+			pump := func() {
+				for k := 0; k < 20; k++ {
+					for x := 0; x < 2; x++ {
+						for s.canOp(x) {
+							s.op(x, "deliver")
+						}
+					}
+				}
+			}
+			s.recv(1)
+			// one full cycle of sequence numbers 0..n; the ACK of packet 0 is lost, the next ACK covers it
+			for k := 0; k <= n; k++ {
+				s.send(0, []byte{byte(k)})
+				for s.canOp(0) {
+					s.op(0, "deliver")
+				}
+				if k == 0 && s.canOp(1) {
+					s.op(1, "drop")
+				}
+				pump()
+				if _, rb := s.busy(1); !rb {
+					s.recv(1)
+				}
+			}
+			pump()
+			for k := 0; k < 260; k++ { // idle: the keepalive ping goes out with sequence number 0; no latency
+				s.advance(10 * time.Millisecond)
+				pump()
+			}
+			got = s.conn[0].VerifResendTimeout()
+			ok = true
+			s.finish(base)
+		})
+		if pan != "" {
+			q.fail("c20:panic", "integration: "+truncate(pan, 300))
+			continue
+		}
+		q.stat("integration_cases", 1)
+		if ok {
+			q.check(got == time.Second, "c20:response-credited-to-an-earlier-packet-with-the-same-sequence-number", func() string {
+				return fmt.Sprintf("n=%d, update frequency 1, no latency: the ACK of packet 0 lost and covered by the next ACK, one full cycle later an idle ping reuses sequence number 0: resend timeout %v (round trips are instantaneous: 1s)", n, got)
+			})
+		}
+	}
+	// Ordering between the two goroutines of an endpoint: over a transport whose send returns only after the peer has
+	// answered (a rendezvous transport; an in-process or very fast link behaves like it), the ACK of a packet can be
+	// processed before the send call returns. No response may then be credited to a packet of an earlier window cycle:
+	// with round trips of microseconds the resend timeout stays at its floor.
+	{
+		ctx, cancel := context.WithCancel(context.Background())
+		var inbox [2]chan []byte
+		inbox[0], inbox[1] = make(chan []byte), make(chan []byte)
+		var ackSeen [2]chan struct{}
+		ackSeen[0], ackSeen[1] = make(chan struct{}, 64), make(chan struct{}, 64)
+		mk := func(x int) (func(context.Context, []byte) error, func(context.Context) ([]byte, error)) {
+			return func(ctx context.Context, b []byte) error {
+					c := append([]byte{}, b...)
+					select {
+					case inbox[1-x] <- c:
+					case <-ctx.Done():
+						return ctx.Err()
+					}
+					if len(c) > 4 && c[0] == 2 { // a DATA packet: return once its ACK has been handled
+						select {
+						case <-ackSeen[x]:
+							time.Sleep(3 * time.Millisecond)
+						case <-time.After(200 * time.Millisecond):
+						case <-ctx.Done():
+						}
+					}
+					return nil
+				}, func(ctx context.Context) ([]byte, error) {
+					select {
+					case b := <-inbox[x]:
+						if len(b) == 2 && b[0] == 3 {
+							select {
+							case ackSeen[x] <- struct{}{}:
+							default:
+							}
+						}
+						return b, nil
+					case <-ctx.Done():
+						return nil, ctx.Err()
+					}
+				}
+		}
+		var conns [2]*gbn.GoBackNConn
+		var hs sync.WaitGroup
+		hs.Add(2)
+		go func() {
+			defer hs.Done()
+			sf, rf := mk(1)
+			if c, err := gbn.NewServerConn(ctx, sf, rf); err == nil {
+				conns[1] = c
+			}
+		}()
+		go func() {
+			defer hs.Done()
+			sf, rf := mk(0)
+			if c, err := gbn.NewClientConn(ctx, 2, sf, rf, gbn.WithTimeoutOptions(gbn.WithTimeoutUpdateFrequency(1))); err == nil {
+				conns[0] = c
+			}
+		}()
+		hs.Wait()
+		q.stat("rendezvous_transport_cases", 1)
+		if conns[0] == nil || conns[1] == nil {
+			q.fail("c20:integration-setup", "rendezvous transport: handshake failed")
+		} else {
+			go func() {
+				for {
+					if _, err := conns[1].Recv(); err != nil {
+						return
+					}
+				}
+			}()
+			var worst time.Duration
+			for k := 0; k < 7; k++ { // sequence numbers 0,1,2,0,1,2,0 with an idle second in between
+				if err := conns[0].Send([]byte{byte(k)}); err != nil {
+					q.fail("c20:integration-setup", "rendezvous transport: Send: "+err.Error())
+					break
+				}
+				time.Sleep(30 * time.Millisecond)
+				if k == 2 {
+					time.Sleep(1200 * time.Millisecond)
+				}
+				if rt := conns[0].VerifResendTimeout(); rt > worst {
+					worst = rt
+				}
+			}
+			q.check(worst <= time.Second, "c20:response-credited-to-a-packet-of-an-earlier-cycle", func() string {
+				return fmt.Sprintf("rendezvous transport, n=2, update frequency 1, no loss, round trips of microseconds, an idle period of 1.2 s between two window cycles: the resend timeout rose to %v (floor 1s)", worst)
+			})
+		}
+		cancel()
+		if conns[0] != nil {
+			_ = conns[0].Close()
+		}
+		if conns[1] != nil {
+			_ = conns[1].Close()
 		}
 	}
 	q.sample("history = random Sent/Received/Tick ops over kinds {syn,synack,data,ack,nack,fin}, seqs {0,1,2,3,254}, gaps {0,1ns,1ms,999ms,1s,1.5s,7s,250ms}; multipliers {1,3,5,2^40}; frequencies {1,2,3,100}; boost {0.5,0.1,2,0.25,3}")
